@@ -48,6 +48,7 @@ package isolation
 // sits at position countTrue(valid, k)); nothing is lost, nothing invalid gets in, other resources are untouched
 //@ func onResourceRuleUpdate(res, rawResRules) err
 //@   props C13
+//@   requires[holds-the-update-lock]{C15} wlockcount(updateRuleMux) > 0
 //@   requires ruleMap != nil && currentRules != nil && ruleMap != currentRules
 //@   let n = len(rawResRules)
 //@   let pick = seqof(k, 0 <= k && k < len(rawResRules) && validRule(rawResRules[k]))
@@ -103,6 +104,7 @@ package isolation
 // exactly the valid rules is not proved here (nested map-of-slices invariant; see DESIGN.md).
 //@ func onRuleUpdate(rawResRulesMap) err
 //@   props C13
+//@   requires[holds-the-update-lock]{C15} wlockcount(updateRuleMux) > 0
 //@   requires ruleMap != nil
 //@   ensures[never-fails] err == nil
 //@   ensures[raw-recorded] currentRules == rawResRulesMap
@@ -135,3 +137,8 @@ package isolation
 //@   assumed
 //@   ensures gIsoClearN == old(gIsoClearN) + 1
 //@   modifies gIsoClearN
+
+// ---- C15: lock discipline of the rule tables (a load, store or use of the variable outside its lock is a data race)
+//@ guarded ruleMap by rwMux {C15}
+//@ guarded currentRules by updateRuleMux {C15}
+//@ lockorder updateRuleMux rwMux {C15}
